@@ -188,6 +188,10 @@ def family_rules(ctx, ids):
     for cls in FAMILY:
         ci = P.cls(RES + cls)
         names = sorted({n for c in ci.mro() for n in c.methods if n not in CTOR and not n.startswith("__") and n not in internal})
+        # alternative constructors and static helpers are not calls *on* an object: they are not part of its history
+        import ast as _ast
+
+        names = [n for n in names if not any(_ast.unparse(d.func if isinstance(d, _ast.Call) else d).split(".")[-1] in ("classmethod", "staticmethod") for d in ci.lookup(n).node.decorator_list)]
         for name in names:
             m = ci.lookup(name)
             if unreachable_after_raise(m.node):
